@@ -1,5 +1,5 @@
 (* C06 L4: ReadPMT over any packetisation = accumulator composition of L2 and L3. *)
-From Gots Require Import Base.Prelude Model.Psi Model.Pmt Spec.PmtSpec Proofs.PmtBase Proofs.PmtParse Proofs.PmtTables.
+From Gots Require Import Base.Prelude Model.Psi Model.Pmt Spec.PmtSpec Proofs.PmtBase Proofs.PmtParse Proofs.PmtTables Proofs.PmtTotal.
 Import Pmt.
 Local Open Scope N_scope.
 
@@ -125,10 +125,11 @@ Proof.
     assert (len A = len (U ++ repeatN 255 n)) by (rewrite EQ; reflexivity). rewrite len_app in *. lia.
   - inversion WI as [|? ? WI1 WI']; subst. destruct it as [p|m af ch].
     + (* a packet of another PID is skipped *)
-      destruct WI1 as [Lp Np]. cbn [ser_items read_pkts].
-      assert (exists q, pkt_pid p = Ok q) as [q Hq].
-      { unfold pkt_pid. rewrite (idx_nthN p 1), (idx_nthN p 2) by lia. cbn [bind]. eexists; reflexivity. }
-      rewrite Hq. cbn [bind]. replace (q =? pid) with false by (symmetry; apply N.eqb_neq; congruence). cbn [negb].
+      destruct WI1 as (Lp & Bp & Np). cbn [ser_items read_pkts].
+      assert (Hq: pkt_pid p = Ok (pid_of p)).
+      { unfold pkt_pid, pid_of. rewrite (idx_nthN p 1), (idx_nthN p 2) by lia. cbn [bind]. f_equal.
+        rewrite land31. apply lor_shl8. apply is_bytes_nthN. exact Bp. }
+      rewrite Hq. cbn [bind]. replace (pid_of p =? pid) with false by (symmetry; apply N.eqb_neq; exact Np). cbn [negb].
       apply (IH first a A); try assumption.
       * exists n. exact EQ.
       * intros j. exact (CUT (S j)).
@@ -170,7 +171,7 @@ Proof. induction pkts as [|p t IH]; intros fuel W Hf; (destruct fuel as [|fuel];
 Lemma ser_items_len pid : forall l first, Forall (wf_item pid) l -> Forall (fun p => len p = 188) (ser_items pid first l).
 Proof. induction l as [|it t IH]; intros first W; [constructor|]. inversion W; subst.
   destruct it as [p|m af ch]; cbn [ser_items]; constructor; try (apply IH; assumption).
-  - destruct H1; assumption.
+  - destruct H1 as [L _]; exact L.
   - apply mk_pkt_len. assumption. Qed.
 
 Theorem read_pmt_ok c pid items :
